@@ -65,6 +65,58 @@ def check_message(ctx, schema, version: str, fields: tuple) -> None:
         ctx.violation(key, f"decoded {got!r:.160} != original {fields!r:.160}", case)
 
 
+def typed_message(version: str, fields: tuple, variant: int):
+    """The same message, its fields given the way applications give them: bool for the ack flag, IntEnum members of the
+    protocol module for command / type, IntEnum ids, attributes assigned after construction (not coerced by __init__)."""
+    from enum import IntEnum
+
+    from aiomysensors.model.message import Message
+    from aiomysensors.model.protocol import get_protocol
+
+    node, child, cmd, ack, mtype, payload = fields
+    protocol = get_protocol(version)
+
+    def member(enum_cls, value):
+        try:
+            return enum_cls(value)
+        except ValueError:
+            return value
+
+    type_enum = {0: protocol.Presentation, 1: protocol.SetReq, 2: protocol.SetReq, 3: protocol.Internal,
+                 4: protocol.Stream}[cmd]
+    ids = IntEnum("Ids", {"node": node, "child": child}) if node != child else IntEnum("Ids", {"node": node})
+    e_node, e_child = ids.node, (ids.child if node != child else ids.node)
+    if variant == 0:
+        return Message(node, child, cmd, bool(ack), mtype, payload)
+    if variant == 1:
+        return Message(e_node, e_child, member(protocol.Command, cmd), IntEnum("Ack", {"flag": ack}).flag,
+                       member(type_enum, mtype), payload)
+    message = Message()
+    message.node_id, message.child_id = (e_node, e_child) if variant == 3 else (node, child)
+    message.command = member(protocol.Command, cmd) if variant == 3 else cmd
+    message.ack = bool(ack) if variant == 3 else ack
+    message.message_type = member(type_enum, mtype) if variant == 3 else mtype
+    message.payload = payload
+    return message
+
+
+def check_typed(ctx, schema, version: str, fields: tuple, variant: int) -> None:
+    case = {"kind": "typed", "version": version, "fields": list(fields), "variant": variant}
+    node, child, cmd, ack, mtype, payload = fields
+    expected_line = f"{node};{child};{cmd};{ack};{mtype};{payload}\n"
+    ctx.case(("t", version, fields, variant), sample=case)
+    ctx.clause("typed-fields-encode")
+    try:
+        encoded = schema.dump(typed_message(version, fields, variant))
+    except Exception as exc:  # noqa: BLE001
+        ctx.violation("encode-raises", f"dump of a message with bool / IntEnum typed fields (variant {variant}) raised "
+                                       f"{type(exc).__name__}: {exc}"[:300], case)
+        return
+    if encoded != expected_line:
+        ctx.violation("encoded-form-differs", f"message with bool / IntEnum typed fields (variant {variant}) encoded as "
+                                              f"{encoded!r:.120}, expected {expected_line!r:.120}", case)
+
+
 def check_line(ctx, schema, version: str, line: str) -> None:
     """Plain-decimal well-formed line: decode then re-encode reproduces it up to trailing whitespace."""
     case = {"kind": "line", "version": version, "line": line}
@@ -126,6 +178,8 @@ def run_case(ctx, case: dict) -> None:
     schema = schema_for(version)
     if case["kind"] == "message":
         check_message(ctx, schema, version, tuple(case["fields"]))
+    elif case["kind"] == "typed":
+        check_typed(ctx, schema, version, tuple(case["fields"]), case["variant"])
     elif case["kind"] == "line":
         check_line(ctx, schema, version, case["line"])
     else:
@@ -144,6 +198,8 @@ def run_workload(ctx) -> None:
             if ctx.mine():
                 check_message(ctx, schemas[version], version, (*head, payload))
                 count += 1
+                if count % 5 == 0:
+                    check_typed(ctx, schemas[version], version, (*head, payload), count // 5 % 4)
     ctx.exhaustive["boundary-product-cases"] = count
     # 2. plain-decimal lines with trailing blanks (exhaustive over a smaller head set)
     for version in VERSIONS:
@@ -158,6 +214,8 @@ def run_workload(ctx) -> None:
         head = gens.random_wellformed(rng)
         payload = gens.random_payload(rng)
         check_message(ctx, schemas[version], version, (*head, payload))
+        if rng.random() < 0.2:
+            check_typed(ctx, schemas[version], version, (*head, payload), rng.randrange(4))
         if rng.random() < 0.3:
             line = ";".join(str(x) for x in head) + ";" + payload + rng.choice(gens.NONPLAIN_TAILS)
             check_line(ctx, schemas[version], version, line)
